@@ -34,6 +34,7 @@ ASSUMPTIONS = [
     "clause 'leaves the caller's graph and query objects unchanged' is a Python-runtime clause (R): decided by deep comparison of the graph, the argument sets and the Identification/Query objects before and after every call, not by a theorem (the model is pure)",
     "clause 'refuses exactly when the effect is not identifiable (a hedge exists)': `id_fail_iff_hedge` proves refusal <=> a hedge (Y0/Spec/Hedge.lean: Shpitser-Pearl 2006 Def. 6 on vertex sets) exists for the ORIGINAL query, both directions on the graph; 'a hedge exists => not identifiable from P(v)' (Shpitser-Pearl Thm 4: two models agreeing on P(v) and differing on P_x(y)) is literature, not mechanised; 'estimand returned => identifiable, by that estimand' is C01's id_sound; the verdict is also compared per input with two independent decision procedures (c-component criterion; brute-force hedge search up to 6 nodes)",
     "`graph.topological_sort()` (networkx, on a graph rebuilt from a Python set) is a parameter `topo` of the model; the theorems assume it returns a linear extension of the directed part (trusted: networkx); the correspondence feeds the orders observed in the real run",
+    "SUPERSEDES the 'literature, not mechanised' part of the second entry: 'a hedge exists => not identifiable' (Shpitser-Pearl 2006 Thm 4) IS now a theorem, `hedge_not_identifiable` in Y0/Props/C02Complete.lean (two positive models of the class Y0/Spec/Scm.lean with equal P(v) and different P_x(y)), and the clause is `id_refuses_iff_not_identifiable` / `id_ok_iff_identifiable` for every valid query with treatments inside the graph; 'identifiable' is Y0/Spec/Identifiable.lean (compatible positive discrete models with independent root latents shared only across bidirected edges, equal ranges of the observed variables, distributions compared at in-range assignments) -- non-identifiability relative to a larger model class (latents with parents, non-positive distributions) follows a fortiori, identifiability relative to a larger class does not",
 ]
 EXHAUSTIVE = {"quick": False, "thorough": False}
 LEANCHECK_MODULES = ["Y0.Model.Id", "Y0.Model.IdDsl", "Y0.Props.C02"]
